@@ -238,6 +238,14 @@ class HierarchicalMarkupMachine(MarkupMachine, HierarchicalMachine):
         with self():
             return super(HierarchicalMarkupMachine, self).get_markup_config()
 
+    def on_enter(self, state_name, callback):
+        super(HierarchicalMarkupMachine, self).on_enter(state_name, callback)
+        self._needs_update = True
+
+    def on_exit(self, state_name, callback):
+        super(HierarchicalMarkupMachine, self).on_exit(state_name, callback)
+        self._needs_update = True
+
 
 def rep(func, format_references=None):
     """Return a string representation for `func`."""
